@@ -40,7 +40,7 @@ LEVEL_NOTE = ("Trusted: Lean kernel; Model/MdsCodec+MdsConv+MdsFile (byte-exact 
               "codec fragment, and whole songs of the fragment, drum mode included (partial: extra hypotheses = chunk < 64 KiB, at most one loop point per channel track, called tracks "
               "without loop point / drum-mode switch, drum-mode switches outside loops, routine tracks = timeless commands before the first note, loop section ending in the drum state it "
               "starts in, no pitch envelope, platform commands agreeing between converter and timeline (PlatAgree), acceptance by the constructor). Still decided per case by the "
-              "oracle: pitch envelopes, exotic platform `cmd` opcodes, optimised songs (D2 repaired in 8105fb4: a fold takes at most 255 repetitions, Properties/C01 C01_optimize_counts_le_255; the family `d2_cases` "
+              "oracle: pitch envelopes, exotic platform `cmd` opcodes, optimised songs (D2 repaired in 6f86090: a fold takes at most 255 repetitions, Properties/C01 C01_optimize_counts_le_255; the family `d2_cases` "
               "runs 254..257, 300, 509..511, 1000 repetitions through optimiser + converter), acceptance (that the converter accepts every encodable song). Known: D24 (loop point in a called channel track), "
               "D27 (drum mode decided in text order by the writer, in execution order by the driver). The oracle's domain (skip otherwise): Timeline.inDomain and, since repo fix b6d6699 "
               "(the converter refuses a drum routine whose ending note is inside a '[]' loop: err:drumNoteInLoop), Fragment.routineNotesOutsideLoops (every routine the "
@@ -264,7 +264,7 @@ def _cases_plain(rng, tier):
 
 
 def d2_cases(T, tier):
-    """Repair of D2 (repo 8105fb4): a phrase repeated back to back more than 255 times, optimised and
+    """Repair of D2 (repo 6f86090): a phrase repeated back to back more than 255 times, optimised and
     compiled.  Before the repair `c` x 300 became `[c]300`, compiled to `fb 2c` = 44 passes.  Same family
     as checks/c01.py `d2_cases` (the optimiser model is slow on these songs: few cases, one to a chunk;
     more than 700 events go as `convox` = model does not answer, the spec interpreter alone decides)."""
